@@ -93,6 +93,25 @@ def run(tier, seed, replay=None):
         return chk.finish()
     pass_rows = vlib.read_ndjson(p3)
 
+    # a mesh with more than 65536 node slots (index arithmetic on pairs of node ids, counters, offsets has room to wrap there)
+    p4 = os.path.join(work, "big.ndjson")
+    rc, out = vlib.run([os.path.join(bdir, "mesh_driver"), "big", p4, "7"], timeout=1200)
+    big_rows = vlib.read_ndjson(p4) if os.path.exists(p4) else []
+    if rc != 0 or len(big_rows) < 1:
+        chk.violation("driver-crash:big", "mesh_driver big terminated with status %d after %d records\n%s" % (rc, len(big_rows), out[-400:]))
+        return chk.finish()
+    nb, bbad = vlib.tlc_validate_records(SPEC, "BigMeshTrace", "BigMeshTrace.cfg", big_rows, chunk=10, par=1, workers=2)
+    chk.cov["states"] += nb
+    chk.cov["transitions"] += nb
+    for inv, idxs in sorted(bbad.items()):
+        for i in idxs:
+            r = big_rows[i]
+            if inv == "P_BigIsBig":
+                if r.get("threw") == "" and r["op"] == "big_init":
+                    raise ModelError("the big mesh is not big: %r" % r)
+                continue
+            chk.violation("impl:%s:%s" % (inv, r["op"]), "mesh of %d node slots / %d faces, step %s: %s violated; verdicts %s" % (r["nslots"], r["nf"], r["op"], inv, json.dumps(r)), {"big_record": r})
+    chk.cov["big_mesh_records"] = len(big_rows)
     vlib.log("stage: drivers done (%d + %d + %d records) at %.0fs" % (len(dfs_rows), len(walk_rows), len(pass_rows), __import__("time").time() - chk.t0))
     total, drift_all = 0, {}
     for tag, rows in (("exhaustive chains", dfs_rows), ("random chains", walk_rows), ("refine_mesh passes", pass_rows)):
